@@ -67,7 +67,7 @@ Proof. destruct p; reflexivity. Qed.
 Lemma encode_spec : forall pn la, 0 <= la <= pn -> pn - la < 2 ^ 31 ->
   exists p, encode pn la = EncOk p /\
             payload (wire p) = pn mod 2 ^ bits_of p /\ bits_of (wire p) = bits_of p /\
-            pn - la < 2 ^ bits_of p / 2.
+            pn - la < 2 ^ bits_of p / 2 /\ payload p = pn mod 2 ^ bits_of p.
 Proof.
   intros pn la Hla Hd. unfold encode, U64.
   change (2 ^ 31) with 2147483648 in Hd.
@@ -79,15 +79,15 @@ Proof.
   destruct (Z.max ((pn - la) * 2) 65535 <? 256) eqn:E3; [apply Z.ltb_lt in E3; lia|].
   destruct (Z.max ((pn - la) * 2) 65535 <? 65536) eqn:E4.
   { apply Z.ltb_lt in E4. eexists; split; [reflexivity|]. unfold bits_of; cbn [wire width payload].
-    change (2 ^ (8 * 2)) with 65536. split; [|split]; [first [reflexivity | lia] | reflexivity | lia]. }
+    change (2 ^ (8 * 2)) with 65536. split; [|split; [|split]]; [first [reflexivity | lia] | reflexivity | lia | first [reflexivity | lia]]. }
   destruct (Z.max ((pn - la) * 2) 65535 <? 16777216) eqn:E5.
   { apply Z.ltb_lt in E5. eexists; split; [reflexivity|]. unfold bits_of; cbn [wire width payload].
     change (2 ^ (8 * 3)) with 16777216. change (2 ^ 16) with 65536. change (2 ^ 8) with 256.
-    split; [|split]; [first [reflexivity | lia] | reflexivity | lia]. }
+    split; [|split; [|split]]; [first [reflexivity | lia] | reflexivity | lia | first [reflexivity | lia]]. }
   destruct (Z.max ((pn - la) * 2) 65535 <? 4294967296) eqn:E6.
   { apply Z.ltb_lt in E6. eexists; split; [reflexivity|]. unfold bits_of; cbn [wire width payload].
     change (2 ^ (8 * 4)) with 4294967296.
-    split; [|split]; [first [reflexivity | lia] | reflexivity | lia]. }
+    split; [|split; [|split]]; [first [reflexivity | lia] | reflexivity | lia | first [reflexivity | lia]]. }
   apply Z.ltb_ge in E6. lia.
 Qed.
 
@@ -98,7 +98,7 @@ Lemma p_c07_decode_wide : forall pn la exp,
   exists p, encode pn la = EncOk p /\ decode (wire p) exp = DecOk pn.
 Proof.
   intros pn la exp Hla Hd He.
-  destruct (encode_spec pn la) as (p & Henc & Hpay & Hbits & Hhalf); [lia | lia |].
+  destruct (encode_spec pn la) as (p & Henc & Hpay & Hbits & Hhalf & Hdir); [lia | lia |].
   exists p. split; [exact Henc|].
   assert (Hb : bits_of p = 8 \/ bits_of p = 16 \/ bits_of p = 24 \/ bits_of p = 32)
     by (unfold bits_of; destruct p; cbn; lia).
@@ -126,7 +126,7 @@ Lemma p_c07_decode_reordered : forall pn la exp,
   exists p, encode pn la = EncOk p /\ decode (wire p) exp = DecOk pn.
 Proof.
   intros pn la exp Hla Hd He Hlt Hnear.
-  destruct (encode_spec pn la) as (p & Henc & Hpay & Hbits & Hhalf); [lia | lia |].
+  destruct (encode_spec pn la) as (p & Henc & Hpay & Hbits & Hhalf & Hdir); [lia | lia |].
   exists p. split; [exact Henc|].
   assert (Hb : bits_of p = 16 \/ bits_of p = 24 \/ bits_of p = 32).
   { unfold encode in Henc. unfold bits_of.
@@ -150,7 +150,7 @@ Lemma p_c07_encode_total : forall pn la,
   exists p, encode pn la = EncOk p /\ 2 <= width p <= 4.
 Proof.
   intros pn la Hla Hd.
-  destruct (encode_spec pn la Hla Hd) as (p & Henc & _ & _ & Hhalf).
+  destruct (encode_spec pn la Hla Hd) as (p & Henc & _ & _ & Hhalf & _).
   rewrite Henc. split; [discriminate|split; [discriminate|]].
   exists p. split; [reflexivity|].
   unfold encode in Henc.
@@ -174,15 +174,37 @@ Proof.
   reflexivity.
 Qed.
 
-(* decode applied to the in-memory result of encode (not the wire form) is wrong for the
-   3-byte width: `U24(pn as u32)` keeps 32 bits and decode ORs them into the candidate *)
-Lemma p_c07_decode_direct_refuted :
-  exists pn la exp p, 0 <= la < 2 ^ 62 /\ pn - la < 2 ^ 31 /\ la < exp <= pn /\
-    encode pn la = EncOk p /\ decode p exp <> DecOk pn /\ decode (wire p) exp = DecOk pn.
+(* since the fix of F31 (`U24(pn as u32 & 0x00ff_ffff)`) the in-memory value returned by encode
+   decodes like its wire form: the clause holds without going through put_packet_number *)
+Lemma p_c07_decode_direct : forall pn la exp,
+  0 <= la < 2 ^ 62 -> pn - la < 2 ^ 31 -> la <= exp <= pn ->
+  exists p, encode pn la = EncOk p /\ decode p exp = DecOk pn /\ wire p = p.
 Proof.
-  exists 67108865, 67068865, 67108862, (U24 67108865).
-  vm_compute. repeat split; try discriminate; congruence.
+  intros pn la exp Hla Hd He.
+  destruct (encode_spec pn la) as (p & Henc & Hpay & Hbits & Hhalf & Hdir); [lia | lia |].
+  exists p. split; [exact Henc|].
+  assert (Hb : bits_of p = 8 \/ bits_of p = 16 \/ bits_of p = 24 \/ bits_of p = 32)
+    by (unfold bits_of; destruct p; cbn; lia).
+  split.
+  - apply decode_window.
+    + exact Hdir.
+    + lia.
+    + change (2 ^ 62) with 4611686018427387904 in Hla. change (2 ^ 31) with 2147483648 in Hd.
+      change (2 ^ 63) with 9223372036854775808. lia.
+    + destruct Hb as [H|[H|[H|H]]]; rewrite H in *;
+      [ change (2 ^ 8) with 256 in * | change (2 ^ 16) with 65536 in *
+      | change (2 ^ 24) with 16777216 in * | change (2 ^ 32) with 4294967296 in * ]; lia.
+  - destruct p as [x|x|x|x]; try reflexivity.
+    unfold bits_of in Hdir. cbn [payload width] in Hdir. change (2 ^ (8 * 3)) with 16777216 in Hdir.
+    cbn [wire]. f_equal. change (2 ^ 16) with 65536. change (2 ^ 8) with 256. lia.
 Qed.
+
+(* decode of a U24 whose payload exceeds 24 bits (constructible through the public enum, and what
+   encode returned before the fix) still differs from its wire form: the regression witness *)
+Lemma p_c07_decode_unreduced_u24 :
+  decode (U24 67108865) 67108862 = DecOk 100663297 /\ decode (wire (U24 67108865)) 67108862 = DecOk 67108865
+  /\ encode 67108865 67068865 = EncOk (U24 1).
+Proof. vm_compute. repeat split. Qed.
 
 (* outside the 3-byte width the in-memory value is already the wire value *)
 Lemma wire_id : forall p, (forall x, p <> U24 x) -> wire p = p.
